@@ -38,7 +38,7 @@ func version(k int, uniq string) *mach.ASpec {
 			{HasPat: true, Pat: map[string]interface{}{"fail" + uniq: x}, Target: "bad"},
 			{HasPat: true, Pat: map[string]interface{}{"nat" + uniq: x}, Target: "nat"},
 			{HasPat: true, Pat: map[string]interface{}{"likes" + uniq: []interface{}{x, "chips", "tacos"}}, Target: "n1"}}},
-		"n1": {Act: []mach.Op{{Name: "emit", V: map[string]interface{}{"v": tag, "at": "n1"}}, {Name: "set", K: "ver", V: tag}, {Name: "setfrom", K: "last", K2: x}},
+		"n1": {Act: []mach.Op{{Name: "emit", V: map[string]interface{}{"v": tag, "at": "n1"}}, {Name: "set", K: "ver", V: tag}, {Name: "setfrom", K: "last", K2: x}, {Name: "propcount", K: "visits"}},
 			BType: "bindings", Branches: []mach.ABranch{
 				{HasPat: true, Pat: map[string]interface{}{x: float64(k)}, Guard: []mach.Op{{Name: "set", K: "guarded", V: tag}}, Target: "n2"},
 				{Guard: []mach.Op{{Name: "retnull"}}, Target: "bad"},
@@ -51,8 +51,9 @@ func version(k int, uniq string) *mach.ASpec {
 }
 
 type input struct {
-	bs   match.Bindings
-	msgs []interface{}
+	bs      match.Bindings
+	msgs    []interface{}
+	noProps bool
 }
 
 func encWalk(w *core.Walked, err error, outcome string) interface{} {
@@ -75,7 +76,11 @@ func walk(spec *core.Spec, in input) (res interface{}, outcome string) {
 			}
 		}()
 		st := &core.State{NodeName: "n0", Bs: enc.DeepCopy(in.bs).(match.Bindings)}
-		w, err = spec.Walk(context.Background(), st, enc.DeepCopy(in.msgs).([]interface{}), &core.Control{Limit: 30}, core.StepProps{"mid": "m"})
+		props := core.StepProps{"mid": "m"}
+		if in.noProps {
+			props = nil // (the hosts pass the machine's id; a library user may pass nothing)
+		}
+		w, err = spec.Walk(context.Background(), st, enc.DeepCopy(in.msgs).([]interface{}), &core.Control{Limit: 30}, props)
 	}()
 	return encWalk(w, err, outcome), outcome
 }
@@ -116,7 +121,15 @@ func history(id int, rng *rand.Rand) O {
 			}
 			ms = append(ms, map[string]interface{}{k + uniq: v})
 		}
-		inputs[i] = input{bs: match.Bindings{"who": float64(i), "p!": "keep"}, msgs: ms}
+		// every machine has permanent bindings of its own (values and names): nothing of one machine may turn up in another
+		bs := match.Bindings{"who": float64(i), "p!": "keep" + strconv.Itoa(i)}
+		if i%2 == 0 {
+			bs["tenant"+strconv.Itoa(i)+"!"] = float64(i)
+		}
+		if i%3 == 2 {
+			delete(bs, "p!")
+		}
+		inputs[i] = input{bs: bs, msgs: ms, noProps: i%2 == 1}
 	}
 	// in half of the histories the later versions are DERIVED from version 1 while it is in use: copied
 	// (Spec.Copy), edited (another target, another action source) and compiled by the swapper
